@@ -560,7 +560,7 @@ pub fn exec(sc: &mut dyn ScopeOps, ctx: &mut Ctx<'_>) -> Flow {
                 return Flow::Exit { unwind: s(&args, "how") == "unwind" };
             }
             "guard_reset" => return Flow::GuardReset,
-            "reset" | "reset_to_start" | "drop" | "with_settings" => return Flow::BumpOp,
+            "reset" | "reset_to_start" | "drop" | "with_settings" | "raw_roundtrip" => return Flow::BumpOp,
             "try_with" => {
                 ctx.pc += 1;
                 let tag = 1 + ((i * 17 + 3) % 250) as u8;
@@ -761,8 +761,10 @@ pub fn run_root(make: &mut dyn FnMut(&Value) -> Option<Box<dyn BumpOps>>, ctx: &
                 let i = ctx.pc;
                 ctx.pc += 1;
                 let a = s(&ctx.steps[i], "a").to_string();
-                ctx.cps.clear();
-                ctx.cp_entries.clear();
+                if a != "raw_roundtrip" {
+                    ctx.cps.clear();
+                    ctx.cp_entries.clear();
+                }
                 match a.as_str() {
                     "reset" => {
                         let r = catch_unwind(AssertUnwindSafe(|| bump.reset()));
@@ -776,6 +778,10 @@ pub fn run_root(make: &mut dyn FnMut(&Value) -> Option<Box<dyn BumpOps>>, ctx: &
                         let r = catch_unwind(AssertUnwindSafe(move || drop(bump)));
                         ctx.record(i, None, Ctx::obs(if r.is_ok() { "ok" } else { "panic" }));
                         return;
+                    }
+                    "raw_roundtrip" => {
+                        bump = bump.raw_roundtrip();
+                        ctx.record(i, Some(bump.as_scope_ops(through_bump)), Ctx::obs("ok"));
                     }
                     "with_settings" => {
                         let args = ctx.steps[i]["args"].clone();
